@@ -37,6 +37,8 @@ static std::string call_B(int kind)
         case 3: { MModel m = small_model(false); std::string s = render_xta(m); parse_XTA(s.c_str(), &doc, true); TigaPropertyBuilder pb(doc); rc = parseProperty("A[] g < 3 &&\n  nope > 1", &pb, "/q"); break; }
         case 4: rc = parse_XTA("clock x; int i;\nprocess P { state A, B; init A; trans A -> B { guard x < 3, i < nope; }; }\nsystem P;", &doc, false); break;    // old syntax
         case 5: { DocumentBuilder b(doc); rc = parse_XTA("1 +\n (2 * )", &b, true, S_EXPRESSION, "/e"); break; }
+        case 6: rc = parse_XTA("int i;\nprocess P() { state A, B, C; init A; trans -> C { guard i < 3; }, A -> B { }; }\nsystem P;", &doc, true); break;   // a trans list that starts with the shorthand form (no previous edge to take the source from)
+        case 7: rc = parse_XTA("const int k1 = 7; int big = 12345; double dd = 2.5;\nprocess P() { state A; init A; }\nsystem P;", &doc, true); break;              // plain literals
         }
     } catch (std::exception& e) { threw = true; }
     return record_doc(doc, threw, rc);
@@ -57,13 +59,16 @@ static void call_A(int kind)
         case 7: { ThrowingBuilder b(doc); parse_XTA("int q = 1; process P() { state A, B; init A; trans A -> B { guard boom > 1; }; } system P;", &b, true); break; }   // ... from deep inside a process body
         case 8: { MModel m = small_model(false); std::string s = render_xta(m); parse_XTA(s.c_str(), &doc, true); TigaPropertyBuilder pb(doc); parseProperty("E<> g > /* open", &pb, "/q"); break; }   // property mode, unterminated comment
         case 9: { DocumentBuilder b(doc); parse_XTA("k : int[0,", &b, true, S_SELECT, "/s"); break; }                                     // truncated select
+        case 10: { DocumentBuilder b(doc); parse_XTA("int big = 99999999999999999999; int other = 3;", &b, true, S_DECLARATION, "/d"); break; }   // a literal beyond 2^63
+        case 11: { DocumentBuilder b(doc); parse_XTA("double huge = 1e999; double tiny = 1e-999;", &b, true, S_DECLARATION, "/d"); break; }        // floating literals outside the range of double
+        case 12: parse_XTA("int i; process P() { state A, B, C; init A; trans B -> C { }, -> A { }; } system P;", &doc, true); break;         // a complete edge followed by the shorthand form
         }
     } catch (...) {}
 }
 
-extern "C" void harness_history()  /* vf: bounds=6_observed_calls_x_10_intervening_calls(one-step_histories) reach=end */
+extern "C" void harness_history()  /* vf: bounds=8_observed_calls_x_13_intervening_calls(one-step_histories) reach=end */
 {
-    int b = vf_pick("!observed", 6), a = vf_pick("!intervening", 10);
+    int b = vf_pick("!observed", 8), a = vf_pick("!intervening", 13);
     std::string first = call_B(b);
     call_A(a);
     std::string again = call_B(b);
@@ -71,9 +76,9 @@ extern "C" void harness_history()  /* vf: bounds=6_observed_calls_x_10_interveni
     vf_assert(first == again, "result-independent-of-earlier-parse");
     vf_reach("end");
 }
-extern "C" void harness_history2()  /* vf: tier=thorough bounds=6_observed_calls_x_10x10_two-step_histories reach=end */
+extern "C" void harness_history2()  /* vf: tier=thorough bounds=8_observed_calls_x_13x13_two-step_histories reach=end */
 {
-    int b = vf_pick("!observed", 6), a1 = vf_pick("!intervening1", 10), a2 = vf_pick("!intervening2", 10);
+    int b = vf_pick("!observed", 8), a1 = vf_pick("!intervening1", 13), a2 = vf_pick("!intervening2", 13);
     std::string first = call_B(b);
     call_A(a1); call_A(a2);
     std::string again = call_B(b);
